@@ -42,6 +42,16 @@ fn position_to_index(source: &[char], position: Position) -> usize {
         .take(position.line as usize + 1)
         .collect();
 
+    // The last line of a text that does not end in a newline has no entry of its own above:
+    // it starts after the last newline and runs to the end of the text. (A column past the
+    // end of an empty last line keeps being resolved on the line before it.)
+    let last_line_start = newline_indices.last().copied().unwrap_or(0);
+    if newline_indices.len() == position.line as usize
+        && (last_line_start < source.len() || position.character == 0)
+    {
+        newline_indices.push(source.len());
+    }
+
     let line_end_idx = newline_indices.pop().unwrap_or(source.len());
     let line_start_idx = newline_indices.pop().unwrap_or(0);
 
